@@ -884,13 +884,13 @@ def filter_literal(
             + "L" * (ty.bit_length > 32)
         )
         assert isinstance(out, str)
-        return out
+        return _INT64_MIN_LITERAL if out == "-9223372036854775808LL" else out
 
     elif isinstance(ty, pydsdl.FloatType):
         if value.denominator == 1:
             expr = "{}.0".format(value.numerator)
         else:
-            expr = "({}.0 / {}.0)".format(value.numerator, value.denominator)
+            expr = _rational_to_floating_point_expression(value)
         cast = filter_type_from_primitive(language, ty)
         return cast_format.format(type=cast, value=expr)
 
@@ -1100,3 +1100,19 @@ def filter_is_zero_cost_primitive(language: Language, t: pydsdl.PrimitiveType) -
 
     """
     return str(is_zero_cost_primitive(language, t))
+
+
+# The magnitude 9223372036854775808 does not fit any signed integer type, so the minimum of int64 cannot be written
+# as a negated literal without a diagnostic (and without changing the type of the expression).
+_INT64_MIN_LITERAL = "(-9223372036854775807LL - 1)"
+
+
+def _rational_to_floating_point_expression(value: fractions.Fraction) -> str:
+    """
+    Renders a non-integer rational as a floating point expression. The quotient of two literals is used so the compiler
+    does the rounding, unless one of them is too large for a double literal (e.g. the denominator of 1e-320): then the
+    quotient would be evaluated as x/inf == 0 and the correctly rounded decimal representation is emitted instead.
+    """
+    if abs(value.numerator) >= 2**1023 or value.denominator >= 2**1023:
+        return repr(float(value))
+    return "({}.0 / {}.0)".format(value.numerator, value.denominator)
